@@ -455,7 +455,11 @@ fn gen_updates(rng: &mut Rng, slow_wal: bool, sharded: bool, synced: bool) -> (V
             0 => 0,
             1 => rng.gen_range(0..20u64),
             2 => rng.gen_range(100..1000u64),
-            _ => rng.gen_range((1u64 << 20)..(1u64 << 40)),
+            _ => {
+                // a fifth of the far-ahead clocks sit at the top of the u64 range (lesson 5)
+                let v = rng.gen_range((1u64 << 20)..(1u64 << 40));
+                match v % 10 { 0 => (1u64 << 63) + v, 1 => u64::MAX - (1u64 << 42) + v, _ => v }
+            }
         };
         start.push(rep.lamport_clock.time);
     }
@@ -625,9 +629,11 @@ fn gen_layout(rng: &mut Rng) -> Layout {
         ties = true;
     }
     // ids
-    let last = if has_ck { rng.gen_range(0..3u64) } else { 0 };
+    // a sixth of the layouts have ids around 10^8, where the {:08} object names grow a digit
+    let wide: u64 = if start_clocks.iter().fold(0u64, |a, b| a.wrapping_add(*b)) % 6 == 0 { 99_999_996 } else { 0 };
+    let last = wide + if has_ck { rng.gen_range(0..3u64) } else { 0 };
     let uncovered = has_ck && rng.gen_bool(0.08);
-    let mut id = if has_ck && !uncovered { last + 1 + rng.gen_range(0..2u64) } else { 0 };
+    let mut id = if has_ck && !uncovered { last + 1 + rng.gen_range(0..2u64) } else { wide };
     let mut segs: Vec<SegSpec> = Vec::new();
     for j in 0..nseg {
         let mut ds: Vec<ReplicationDelta> = updates.iter().filter(|u| u.segs.contains(&j)).map(|u| u.d.clone()).collect();
@@ -1128,6 +1134,24 @@ async fn run_case(seed: u64, i: u64, verbose: bool, plain: bool, out: &mut Out) 
         Err(e) => Err(e.to_string()),
     };
     out.count(if rec.is_ok() { "recover:ok" } else { "recover:err" });
+    // recover_with_progress (what the integration entry point calls) returns what recover() returns
+    {
+        out.impl_checks += 1;
+        let mut phases = 0usize;
+        let rp: Result<Rec, String> = match RecoveryManager::new(store.clone(), PREFIX, 1).recover_with_progress(|_| phases += 1).await {
+            Ok(r) => Ok(Rec { ck: r.checkpoint_state, deltas: r.deltas }),
+            Err(e) => Err(e.to_string()),
+        };
+        let same = match (&rec, &rp) {
+            (Ok(a), Ok(b)) => a.text() == b.text(),
+            (Err(_), Err(_)) => true,
+            _ => false,
+        };
+        if !same {
+            out.count(&format!("violation:{}", V_REC));
+            out.violation(i, V_REC, json!({"what": "recover_with_progress differs from recover()", "recover": rec.as_ref().map(|r| r.text()).map_err(|e| e.clone()), "recover_with_progress": rp.as_ref().map(|r| r.text()).map_err(|e| e.clone()), "layout": format!("(K11 {})", layout_t)}));
+        }
+    }
     let base = |extra: Value| -> Value {
         let mut v = json!({"layout": format!("(K11 {})", layout_t), "tags": lay.tags(), "high_water": high_water,
             "segments": lay.segs.iter().map(|s| json!({"id": s.id, "min": s.info.min_timestamp, "max": s.info.max_timestamp, "deltas": s.deltas.iter().map(delta_text).collect::<Vec<_>>()})).collect::<Vec<_>>(),
